@@ -142,6 +142,17 @@ func c01Units(ctx *core.Ctx) []core.Unit {
 			}
 		}})
 	}
+	us = append(us, core.Unit{Name: "polynomials with limb-boundary evaluations", Run: func(ctx *core.Ctx, r *core.Result) {
+		needRef()
+		polys := polyAlphabet(ctx.Seed)
+		for ei, e := range edgePolys() {
+			for _, z := range []int{0, 3, 4, 255} {
+				c01Case(r, stmt{label: "vt", zs: []int{z}, polys: []namedPoly{e}}, []int{0, 2, 16}[(ei+z)%3], true)
+			}
+			c01Case(r, stmt{label: "vt", zs: []int{77, 200}, polys: []namedPoly{e, polys[12]}}, 2, ei%2 == 0)
+			c01Case(r, stmt{label: "vt", zs: []int{5, 5, 6}, polys: []namedPoly{polys[10], e, e}}, 16, false)
+		}
+	}})
 	us = append(us, core.Unit{Name: "REPR^2 and pointer sharing", Run: func(ctx *core.Ctx, r *core.Result) {
 		needRef()
 		polys := polyAlphabet(ctx.Seed)
